@@ -77,11 +77,11 @@ pub fn fwd_send_strategy() -> impl Strategy<Value = FwdSend> + Clone {
 			1 => (-1i8..=1).prop_map(FwdAmt::DownMin),
 			1 => (-1i8..=1).prop_map(FwdAmt::DownLimit),
 		],
-		prop_oneof![5 => Just(0i8), 2 => Just(-1i8), 2 => Just(1i8)],
-		prop_oneof![5 => Just(0i8), 2 => Just(-1i8), 2 => Just(1i8)],
+		prop_oneof![6 => Just(0i8), 1 => Just(-1i8), 1 => Just(1i8)],
+		prop_oneof![6 => Just(0i8), 1 => Just(-1i8), 1 => Just(1i8)],
 		// mostly the usual final delta; sometimes around the forwarder's "outgoing expiry too soon" edge
 		// (next height + LATENCY_GRACE_PERIOD_BLOCKS), sometimes around the recipient's minimum
-		prop_oneof![10 => Just(TEST_FINAL_CLTV as u16), 3 => 1u16..=7, 1 => 40u16..=46, 1 => 60u16..120],
+		prop_oneof![14 => Just(TEST_FINAL_CLTV as u16), 2 => 1u16..=7, 1 => 40u16..=46, 1 => 60u16..120],
 	)
 		.prop_map(|(route, amt, fee_adj, delta_adj, final_delta)| FwdSend { route, amt, fee_adj, delta_adj, final_delta })
 }
@@ -395,8 +395,6 @@ impl Sim {
 	/// Returns (quiescent, blocks mined).
 	pub fn c02_settle(&mut self, deferred: bool, resolutions: &[bool], max_blocks: u32) -> (bool, u32) {
 		let mut mined = 0u32;
-		let mut quiet_blocks = 0u32;
-		let mut any_chain = false;
 		for _ in 0..(max_blocks as usize + 60) {
 			let quiet = self.c02_settle_offchain(deferred, 40);
 			let cands: Vec<usize> = self.pays.iter().filter(|p| p.state == PayState::Claimable).map(|p| p.idx).collect();
@@ -413,20 +411,19 @@ impl Sim {
 			if !quiet {
 				return (false, mined);
 			}
-			let pending = self.c02_chain_work_pending();
-			if pending {
-				any_chain = true;
-				quiet_blocks = 0;
-			}
-			if pending || (any_chain && quiet_blocks < ANTI_REORG_DELAY + 1) {
+			// the last block that confirmed anything must be buried ANTI_REORG_DELAY deep: only then have the
+			// monitors told their managers about every on-chain resolution
+			let last_nonempty = self.log.iter().rev().find_map(|(_, e)| match e {
+				SEvent::Mined { height, txids } if !txids.is_empty() => Some(*height),
+				_ => None,
+			});
+			let bury = last_nonempty.map(|h| self.chain.height() < h + ANTI_REORG_DELAY + 1).unwrap_or(false);
+			if self.c02_chain_work_pending() || bury {
 				if mined >= max_blocks {
 					return (false, mined);
 				}
 				self.c02_mine(1, false);
 				mined += 1;
-				if !pending {
-					quiet_blocks += 1;
-				}
 				continue;
 			}
 			return (true, mined);
@@ -460,6 +457,26 @@ pub enum COp {
 	Mine { blocks: u8, reverse: bool },
 	/// mine until the chain height is the (downstream or upstream) expiry of a forwarded HTLC plus `offset`
 	MineToExpiry { pay: u16, upstream: bool, offset: i8 },
+	/// the recipient claims a payment it holds, the fulfil travels back until `k` messages reached B on the
+	/// downstream link, with a disturbance around it (async persistence is switched on before, the others
+	/// happen right after B learned the preimage)
+	ClaimThen { pay: u16, k: u8, then: Disturb },
+	/// one link of a payment the recipient holds is force-closed (by B or by its peer), `blocks` blocks are
+	/// mined, then the recipient claims (or keeps waiting)
+	CloseThenClaim { pay: u16, downstream: bool, by_b: bool, blocks: u8, claim: bool },
+}
+
+#[derive(Clone, Debug, Serialize, Deserialize)]
+pub enum Disturb {
+	None,
+	AsyncUp,
+	AsyncDown,
+	AsyncBoth,
+	DisconnectUp,
+	DisconnectDown,
+	Restart { snap: u16, landed: bool },
+	ForceCloseUp { by_b: bool },
+	ForceCloseDown { by_b: bool },
 }
 
 #[derive(Clone, Debug)]
@@ -483,6 +500,10 @@ pub struct CWeights {
 	pub force_close: u32,
 	pub mine: u32,
 	pub mine_to: u32,
+	pub claim_then: u32,
+	pub close_then_claim: u32,
+	/// ClaimThen may force-close
+	pub claim_then_close: bool,
 }
 
 pub fn cop_strategy(w: CWeights) -> impl Strategy<Value = COp> + Clone {
@@ -506,6 +527,32 @@ pub fn cop_strategy(w: CWeights) -> impl Strategy<Value = COp> + Clone {
 		(w.force_close, (any::<u16>(), any::<bool>()).prop_map(|(chan, by_funder)| COp::Base(Op::ForceClose { chan, by_funder })).boxed()),
 		(w.mine, (prop_oneof![3 => Just(1u8), 2 => 1u8..8, 1 => 6u8..40], any::<bool>()).prop_map(|(blocks, reverse)| COp::Mine { blocks, reverse }).boxed()),
 		(w.mine_to, (any::<u16>(), any::<bool>(), -8i8..=8).prop_map(|(pay, upstream, offset)| COp::MineToExpiry { pay, upstream, offset }).boxed()),
+		(
+			w.claim_then,
+			(
+				any::<u16>(),
+				1u8..4,
+				prop_oneof![
+					1 => Just(Disturb::None),
+					3 => Just(Disturb::AsyncUp),
+					2 => Just(Disturb::AsyncDown),
+					2 => Just(Disturb::AsyncBoth),
+					3 => Just(Disturb::DisconnectUp),
+					2 => Just(Disturb::DisconnectDown),
+					3 => (prop_oneof![3 => Just(0u16), 1 => any::<u16>()], any::<bool>()).prop_map(|(snap, landed)| Disturb::Restart { snap, landed }),
+					if w.claim_then_close { 2 } else { 0 } => any::<bool>().prop_map(|by_b| Disturb::ForceCloseUp { by_b }),
+					if w.claim_then_close { 2 } else { 0 } => any::<bool>().prop_map(|by_b| Disturb::ForceCloseDown { by_b }),
+				],
+			)
+				.prop_map(|(pay, k, then)| COp::ClaimThen { pay, k, then })
+				.boxed(),
+		),
+		(
+			w.close_then_claim,
+			(any::<u16>(), proptest::bool::weighted(0.7), any::<bool>(), prop_oneof![2 => Just(0u8), 2 => 1u8..4, 1 => 4u8..12], proptest::bool::weighted(0.8))
+				.prop_map(|(pay, downstream, by_b, blocks, claim)| COp::CloseThenClaim { pay, downstream, by_b, blocks, claim })
+				.boxed(),
+		),
 	];
 	v.retain(|(w, _)| *w > 0);
 	proptest::strategy::Union::new_weighted(v)
@@ -513,6 +560,23 @@ pub fn cop_strategy(w: CWeights) -> impl Strategy<Value = COp> + Clone {
 
 fn b_chans(sim: &Sim) -> Vec<usize> {
 	(0..sim.chans.len()).filter(|c| sim.chans[*c].a == B || sim.chans[*c].b == B).collect()
+}
+
+/// a generated index that `vcore::pick` maps onto `i` of `len`
+fn chan_pick(i: usize, len: usize) -> u16 {
+	(((i << 16) + (1 << 15)) / len) as u16
+}
+
+/// A payment the recipient currently holds whose path goes through B:
+/// (payment, upstream channel, downstream channel, upstream peer, downstream peer)
+fn held_forward(sim: &Sim, pay: u16) -> Option<(usize, usize, usize, usize, usize)> {
+	let cands: Vec<usize> = sim.pays.iter().filter(|p| p.state == PayState::Claimable && p.path_nodes.iter().position(|n| *n == B).map(|i| i > 0 && i + 1 < p.path_nodes.len()).unwrap_or(false)).map(|p| p.idx).collect();
+	if cands.is_empty() {
+		return None;
+	}
+	let p = &sim.pays[cands[pick(pay, cands.len())]];
+	let i = p.path_nodes.iter().position(|n| *n == B)?;
+	Some((p.idx, p.path_chans[i - 1], p.path_chans[i], p.path_nodes[i - 1], p.path_nodes[i + 1]))
 }
 
 /// Apply one operation; returns a tag of what happened.
@@ -618,6 +682,71 @@ pub fn apply_c02(sim: &mut Sim, spec: &WorldSpec, op: &COp) -> &'static str {
 		COp::Mine { blocks, reverse } => {
 			sim.c02_mine(*blocks as u32, *reverse);
 			"mine"
+		},
+		COp::ClaimThen { pay, k, then } => {
+			let Some((p, up, down, up_peer, down_peer)) = held_forward(sim, *pay) else { return "claimthen-skipped" };
+			match then {
+				Disturb::AsyncUp | Disturb::AsyncBoth => sim.w.set_async(B, Some(sim.chans[up].id), true),
+				_ => {},
+			}
+			match then {
+				Disturb::AsyncDown | Disturb::AsyncBoth => sim.w.set_async(B, Some(sim.chans[down].id), true),
+				_ => {},
+			}
+			sim.claim(p);
+			// whatever has to happen beyond B (line of four: the recipient is not B's peer)
+			for _ in 0..20 {
+				let mut progress = false;
+				for (f, t) in sim.c02_live_links() {
+					if f != B && t != B && sim.c02_deliver1(f, t) {
+						progress = true;
+					}
+				}
+				for i in 0..sim.w.n {
+					if i != B && sim.w.nodes[i].node.needs_pending_htlc_processing() {
+						sim.process_forwards(i);
+						progress = true;
+					}
+				}
+				if !progress {
+					break;
+				}
+			}
+			for _ in 0..*k {
+				if !sim.c02_deliver1(down_peer, B) {
+					break;
+				}
+			}
+			match then {
+				Disturb::DisconnectUp => sim.disconnect(B, up_peer),
+				Disturb::DisconnectDown => sim.disconnect(B, down_peer),
+				Disturb::Restart { snap, landed } => {
+					if sim.restart(B, *snap, *landed).is_err() {
+						return "restart-failed";
+					}
+				},
+				Disturb::ForceCloseUp { by_b } => {
+					let by_funder = (sim.chans[up].a == B) == *by_b;
+					apply(sim, spec, &Op::ForceClose { chan: chan_pick(up, sim.chans.len()), by_funder });
+				},
+				Disturb::ForceCloseDown { by_b } => {
+					let by_funder = (sim.chans[down].a == B) == *by_b;
+					apply(sim, spec, &Op::ForceClose { chan: chan_pick(down, sim.chans.len()), by_funder });
+				},
+				_ => {},
+			}
+			"claim-then"
+		},
+		COp::CloseThenClaim { pay, downstream, by_b, blocks, claim } => {
+			let Some((p, up, down, _, _)) = held_forward(sim, *pay) else { return "closethen-skipped" };
+			let ch = if *downstream { down } else { up };
+			let by_funder = (sim.chans[ch].a == B) == *by_b;
+			apply(sim, spec, &Op::ForceClose { chan: chan_pick(ch, sim.chans.len()), by_funder });
+			sim.c02_mine(*blocks as u32, false);
+			if *claim {
+				sim.claim(p);
+			}
+			"close-then-claim"
 		},
 		COp::MineToExpiry { pay, upstream, offset } => {
 			// expiries of the HTLCs B forwarded so far, read from the recorded wire messages
@@ -748,6 +877,8 @@ pub struct FwdOracle {
 	/// B's in-flight monitor updates: (chan id, update id)
 	b_inflight: BTreeSet<(ChannelId, u64)>,
 	fulfil_marker: Option<bool>,
+	/// the pair whose preimage B is learning in the delivery being processed right now
+	learning_now: Option<[u8; 32]>,
 	/// policy B advertised per channel: (base msat, ppm, cltv delta)
 	policy: Vec<Option<(u64, u64, u32)>>,
 	start_msat: Vec<u64>,
@@ -863,6 +994,7 @@ impl FwdOracle {
 			b_height: sim.w.nodes[B].best_block_info().1,
 			b_inflight: BTreeSet::new(),
 			fulfil_marker: None,
+			learning_now: None,
 			policy,
 			start_msat,
 			start_reported_sat: (0..sim.chans.len()).map(|ci| reported_open_sat(sim, ci)).collect(),
@@ -945,6 +1077,11 @@ impl FwdOracle {
 				},
 				M::H(HEvent::PersistUpdate { node, chan, update_id: Some(id), in_progress: true, .. }) if node == B => {
 					self.b_inflight.insert((chan, id));
+					// an update B creates while handling the fulfil (the upstream preimage update, the downstream
+					// commitment update) stays in flight
+					if let Some(p) = self.learning_now.and_then(|h| self.pairs.get_mut(&h)) {
+						p.async_pending_at_learn = true;
+					}
 				},
 				M::H(HEvent::PersistNew { node, chan, update_id, in_progress: true }) if node == B => {
 					self.b_inflight.insert((chan, update_id));
@@ -952,11 +1089,17 @@ impl FwdOracle {
 				M::H(HEvent::PersistCompleted { node, chan, update_id }) if node == B => {
 					self.b_inflight.remove(&(chan, update_id));
 				},
-				M::S(SEvent::Api { node, what, ok, .. }) if node == B && what == "c02-fulfil-arrives" => {
-					self.fulfil_marker = Some(ok);
+				M::S(SEvent::Api { node, what, ok, .. }) => {
+					self.learning_now = None;
+					if node == B && what == "c02-fulfil-arrives" {
+						self.fulfil_marker = Some(ok);
+					}
 				},
 				M::S(SEvent::Emit { from, to, wire }) => self.on_emit(sim, at, from, to, &wire)?,
-				M::S(SEvent::Deliver { from, to, wire }) => self.on_deliver(sim, at, from, to, &wire)?,
+				M::S(SEvent::Deliver { from, to, wire }) => {
+					self.learning_now = None;
+					self.on_deliver(sim, at, from, to, &wire)?
+				},
 				M::S(SEvent::Disconnect { a, b }) => {
 					if a == B || b == B {
 						for p in self.pairs.values_mut() {
@@ -1338,6 +1481,7 @@ impl FwdOracle {
 				}
 				if newly {
 					self.stats.learned_msg += 1;
+					self.learning_now = Some(preimage_hash);
 				}
 			},
 			_ => {},
